@@ -16,6 +16,18 @@ CHECKS = {
         note="Trusted base: the harness tokenizer T (self-tested at start-up), html.unescape, Hypothesis. Tokenization only - no browser tree construction.",
         ref="2/C01",
     ),
+    "C02": dict(
+        technique="property-based + exhaustive: all 1,112,064 code points and all short metacharacter strings through html_escape and every child-emitting path; Hypothesis trees with text slots checked by a placeholder-template relation and a lock-step escape matcher",
+        text="Complete enumeration of the per-code-point and short-string sub-domains plus seeded generated-input search over tree shapes and ways of adding a child; the oracle is an inverse (decodes back, nothing else changed). Exhaustive on the two finite sub-domains, exploration elsewhere.",
+        note="Trusted base: matcher E (self-tested), html.unescape, Hypothesis; assumes layout depends on node kinds only (the placeholder rendering is the template).",
+        ref="2/C02",
+    ),
+    "C03": dict(
+        technique="property-based + exhaustive: code points and short strings as attribute values; Hypothesis attribute histories (ctor dicts/keywords, update, item assignment, add_class, add_style, plain x HTML() merges) against a parts model, lock-step matcher and tokenizer read-back",
+        text="Complete enumeration of code points / short strings, seeded generated-input search over attribute histories with a reference model of which parts make up each value; inverse oracle per plain part. Found and fixed the plain x HTML() merge defect (known_findings.json).",
+        note="Trusted base: matcher E, tokenizer T, html.unescape, the documented merge rules as coded in the harness model.",
+        ref="2/C03",
+    ),
 }
 
 PENDING_REASON = "check not built yet in this revision (work in progress; see DESIGN.md section 2 for the planned generator and oracle)"
